@@ -1,9 +1,9 @@
 ----------------------------- MODULE TraceExport -----------------------------
 (***************************************************************************)
 (* Judge for exporter / importer observations (C10 C11 C12 C13).           *)
-(*  dict_export : [par, ch, attrs, s, o, obs]       obs = nested dictionary in token space                 *)
+(*  dict_export : [par, ch, attrs, s, o, obs]       obs = dictionary in token space, flat form             *)
 (*  json_export : the same with jml (the decoded text)                                                      *)
-(*  dict_import / json_import : [d, obs]            obs = [p, attrs] of the imported tree (pre-order)       *)
+(*  dict_import / json_import : [d, obs]  d flat;   obs = [p, attrs] of the imported tree (pre-order)       *)
 (*  graph       : [kind, par, ch, s, st, fl, ml, iter, obs]  obs = [nodes, edges]; iter = what PreOrderIter *)
 (*                yielded for the same arguments ("admitted exactly as for the iterators")                  *)
 (***************************************************************************)
@@ -12,13 +12,14 @@ VARIABLE l
 Trace == ndJsonDeserialize(IOEnv.TRACE_FILE)
 
 OptsOf(e) == [attriter |-> e.o.attriter, ml |-> e.o.ml, ci |-> [kind |-> e.o.ci.kind, hide |-> SetOf(e.o.ci.hide), key |-> e.o.ci.key]]
-\* dictionaries are equal up to the order of the pairs, unless attriter imposes one
-RECURSIVE EqD(_, _, _)
-EqD(a, b, exact) == /\ (IF exact THEN a.pairs = b.pairs ELSE SetOf(a.pairs) = SetOf(b.pairs) /\ Len(a.pairs) = Len(b.pairs))
-                    /\ Len(a.children) = Len(b.children)
-                    \* the 'children' entry is present only when non-empty
-                    /\ ("ck" \in DOMAIN a => a.ck = (Len(b.children) > 0))
-                    /\ \A i \in 1..Len(a.children): EqD(a.children[i], b.children[i], exact)
+\* observed dictionaries come in flat form (Export!FlatOf): entries [lv, pairs, nk, ck]; ck = the dictionary has a 'children' entry.
+\* Equal up to the order of the pairs, unless attriter imposes one; the 'children' entry is present only when non-empty.
+EqD(a, d, exact) == LET b == FlatOf(d, 0) IN
+                    /\ Len(a) = Len(b)
+                    /\ \A i \in 1..Len(b):
+                         /\ a[i].lv = b[i].lv /\ a[i].nk = b[i].nk
+                         /\ (IF exact THEN a[i].pairs = b[i].pairs ELSE SetOf(a[i].pairs) = SetOf(b[i].pairs) /\ Len(a[i].pairs) = Len(b[i].pairs))
+                         /\ a[i].ck = (b[i].nk > 0)
 EqImp(obs, t) == /\ obs.p = t.p
                  /\ Len(obs.attrs) = Len(t.attrs)
                  /\ \A i \in 1..Len(t.attrs): SetOf(obs.attrs[i]) = SetOf(t.attrs[i])
@@ -26,8 +27,8 @@ EqImp(obs, t) == /\ obs.p = t.p
 Violated(e) ==
   CASE e.q = "dict_export" -> IF EqD(e.obs, Export(e.ch, e.attrs, e.s, OptsOf(e)), e.o.attriter = "sorted") THEN {} ELSE {"C10"}
     [] e.q = "json_export" -> IF EqD(e.obs, JsonExport(e.ch, e.attrs, e.s, OptsOf(e), e.jml), e.o.attriter = "sorted") THEN {} ELSE {"C11"}
-    [] e.q = "dict_import" -> IF EqImp(e.obs, Import(e.d)) THEN {} ELSE {"C10"}
-    [] e.q = "json_import" -> IF EqImp(e.obs, Import(e.d)) THEN {} ELSE {"C11"}
+    [] e.q = "dict_import" -> IF EqImp(e.obs, ImportFlat(e.d)) THEN {} ELSE {"C10"}
+    [] e.q = "json_import" -> IF EqImp(e.obs, ImportFlat(e.d)) THEN {} ELSE {"C11"}
     [] e.q = "graph" -> IF e.obs.nodes = e.iter /\ e.obs.edges = EdgesAmong(e.ch, e.iter) THEN {}
                         ELSE IF e.kind = "mermaid" THEN {"C13"}
                         \* the listed known finding of DotExporter: the only difference are edges into stopped children
